@@ -211,8 +211,20 @@ pub fn run(ctx: &mut Ctx) {
         // accepted messages, withheld and late messages, mixed with honest progress
         let steps = if ctx.thorough { 200 } else { 60 };
         for _ in 0..steps {
-            match ctx.rng.gen_range(0..12) {
+            match ctx.rng.gen_range(0..14) {
                 0 | 1 => { h.new_request(ctx, &["family_name"]); }
+                // an AUTHENTIC message whose plaintext is not what the receiver expects (a foreign or buggy peer; the harness
+                // plays it with the session key and the receiver's next counter): it uses up its counter value like any other
+                // message, so its replay - offered later by the cases below - is a replay
+                12 => { let n = sess::peek_device(&h.sim.dev).rdr_ctr.wrapping_add(1);
+                        let (pt, kind): (Vec<u8>, &str) = if ctx.rng.gen_bool(0.5) { (vec![0xff, 0x00, 0x13], "notcbor") } else { (vec![0xa1, 0x61, 0x78, 0x01], "notreq") };
+                        let m = h.sim.craft_reader_msg(n, &pt); let d = format!("ct:r:{}:{}:{}:f", h.sim.id, n, kind);
+                        h.to_dev.push((m.clone(), d.clone())); h.deliver_dev_c06(ctx, &m, &d, None, "sequence");
+                        if ctx.rng.gen_bool(0.5) { h.deliver_dev_c06(ctx, &m, &d, None, "sequence"); } }
+                13 => { let n = sess::peek_reader(&h.sim.rdr).dev_ctr.wrapping_add(1);
+                        let m = h.sim.craft_device_msg(n, &[0xa1, 0x61, 0x78, 0x01]); let d = format!("ct:d:{}:{}:notreq:f", h.sim.id, n);
+                        h.to_rdr.push((m.clone(), d.clone())); h.deliver_rdr_c06(ctx, &m, &d, None, "sequence");
+                        if ctx.rng.gen_bool(0.5) { h.deliver_rdr_c06(ctx, &m, &d, None, "sequence"); } }
                 2 | 3 => { // deliver some reader message (latest or older) to the device
                     let i = if ctx.rng.gen_bool(0.6) { h.to_dev.len() - 1 } else { ctx.rng.gen_range(0..h.to_dev.len()) };
                     let (m, d) = h.to_dev[i].clone();
